@@ -402,7 +402,7 @@ func c04RunWire(line string, f map[string]string, out *hx.Out) (obs string, nt b
 	if want != have || got.Seq() != int32(seq) {
 		sig := "c04:wire-status-altered:" + f["proto"]
 		if strings.HasPrefix(f["proto"], "ws") {
-			sig = "c04:ws-subproto-drops-status"
+			sig = "c04:ws-subproto-drops-status:" + strings.TrimPrefix(f["proto"], "ws")
 		}
 		out.Violate(line, "status-survives-the-wire", fmt.Sprintf("%s: packed status %s, unpacked %s", f["proto"], want, have), sig)
 	}
